@@ -13,7 +13,7 @@ def variants(src, contexts, imports, layouts):
         except Exception: s = None
         if s is None: continue
         for imp in imports:
-            fn = {"plain": lambda x: x, "alias": gen.alias_import, "from": gen.from_import, "second-use": gen.second_use}[imp]
+            fn = {"plain": lambda x: x, "alias": gen.alias_import, "from": gen.from_import, "second-use": gen.second_use, "mixed": gen.mixed_imports}[imp]
             try: s2 = fn(s)
             except Exception: s2 = None
             if s2 is None: continue
@@ -32,9 +32,9 @@ def plan(tier, seed):
     by = collections.defaultdict(list)
     for r in recs: by[r["codemod"]].append(r)
     if tier == "quick":
-        per, ctxs, imps, lays = 6, ("module", "def", "nested", "twice"), ("plain", "alias", "second-use"), ("lf", "crlf", "bom", "exploded", "trailing-comma", "semicolon", "keywords-reversed")
+        per, ctxs, imps, lays = 6, ("module", "def", "nested", "twice"), ("plain", "alias", "second-use", "mixed"), ("lf", "crlf", "bom", "exploded", "trailing-comma", "semicolon", "keywords-reversed")
     else:
-        per, ctxs, imps, lays = 10**6, ("module", "def", "async", "method", "nested", "prelude", "twice"), ("plain", "alias", "from", "second-use"), ("lf", "crlf", "nonl", "bom", "tabs", "unicode", "exploded", "exploded-comments", "trailing-comma", "semicolon", "backslash", "formfeed", "keywords-reversed", "hanging")
+        per, ctxs, imps, lays = 10**6, ("module", "def", "async", "method", "nested", "prelude", "twice"), ("plain", "alias", "from", "second-use", "mixed"), ("lf", "crlf", "nonl", "bom", "tabs", "unicode", "exploded", "exploded-comments", "trailing-comma", "semicolon", "backslash", "formfeed", "keywords-reversed", "hanging")
     jobs = []
     for cid, rs in sorted(by.items()):
         rs = sorted(rs, key=lambda r: hashlib.sha1(r["input"].encode()).hexdigest())
